@@ -27,7 +27,7 @@ FAM = {
 }
 
 
-def corpus(work, tier, seed):
+def corpus(work, tier, seed, pid=None):
     ship = tzgen.shipped_zones(V.REPO)
     if tier == "quick":
         k = 10
@@ -38,6 +38,12 @@ def corpus(work, tier, seed):
     else:
         ngen = 400
     gen = tzgen.write_corpus(os.path.join(work, "gen"), seed, ngen)
+    for name, data in tzgen.desig_zones():
+        if "before-fall-back" in name and pid != "C01":
+            continue        # the loader refuses this file (known finding of C01: every zic-class file loads); nothing else to ask of it
+        pth = os.path.join(work, "gen", name.replace("/", "_") + ".tzif")
+        open(pth, "wb").write(data)
+        gen.append((name, pth))
     zl = os.path.join(work, "zones.txt")
     with open(zl, "w") as f:
         for name, path in ship + gen:
@@ -94,6 +100,8 @@ def classify(e, names):
     src = "suite" if z.startswith("suite/") else "shipped" if not z.startswith("gen/") else "generated"
     if z in ANCIENT:
         src = "ancient-dst-zone"
+    if z.startswith("gen/desig-"):
+        src = "designation-change-near-offset-change"
     k = e["e"] + (":subsecond" if e.get("sub") == 1 else "")
     if e.get("ub") == 1:
         if src == "ancient-dst-zone" and z in ANCIENT_NEG and "cs" in e and from_limbs(e["cs"][0]) > (1 << 62):
@@ -144,7 +152,7 @@ def run(pid, tier, seed):
     except V.BuildError as e:
         verdict.infra_failure("build failed: %s" % str(e)[-400:])
         return verdict.finish(_evidence(pid, tier, seed, t0, sw, 0, 0, 0, [], {}, assumptions))
-    zl, zones, nship, ngen = corpus(work, tier, seed)
+    zl, zones, nship, ngen = corpus(work, tier, seed, pid)
     ANCIENT.clear()
     ANCIENT.update(n for n, p in zones if tzgen.is_ancient_dst(open(p, "rb").read()))
     ANCIENT_NEG.clear()
